@@ -1177,12 +1177,13 @@ class AEval(dtable.Eval):
             return r
         if r[0] == "atom" and not r[1].startswith("expr:") and not r[1].startswith("lit:"):
             return A("%s.%s" % (r[1], m))
+        tyname = getattr(self, "type_of_ctor", {}).get(r[1]) if r[0] == "ctor" else None
+        if tyname and ("%s::%s" % (tyname, m)) in self.funcs:
+            v = self.call_fn("%s::%s" % (tyname, m), [r] + args)
+            self._write_back([rnode] + list(e["args"]), env)
+            return v
         if m in self.funcs and r[0] != "list" and not (m in ("map", "iter") and r[0] in ("ctor",) and r[1] in ("Some", "None")):
-            qual = None
-            tyname = getattr(self, "type_of_ctor", {}).get(r[1]) if r[0] == "ctor" else None
-            if tyname and ("%s::%s" % (tyname, m)) in self.funcs:
-                qual = "%s::%s" % (tyname, m)
-            v = self.call_fn(qual or m, [r] + args)
+            v = self.call_fn(m, [r] + args)
             self._write_back([rnode] + list(e["args"]), env)
             return v
         if m in ("iter", "iter_mut", "into_iter", "as_slice", "as_mut_slice", "as_ref", "as_mut", "as_deref_mut", "by_ref", "deref", "deref_mut", "borrow", "borrow_mut", "get_mut", "clone", "cloned", "copied", "to_owned",
